@@ -6,7 +6,7 @@
    request path. The rest of the routing decision (hostnames, listeners, methods/headers/query parameters, filters,
    backends) is decided per generated state and request by the oracle of C02/Check.v against k8s/Spec.v. *)
 From Coq Require Import List String Ascii Bool Arith.
-From NGF Require Import lib.Str k8s.State k8s.Spec C02.PathSel C02.PathSelProofs.
+From NGF Require Import lib.Str k8s.State k8s.Spec k8s.Hostnames C02.PathSel C02.PathSelProofs.
 Import ListNotations.
 
 (* the location NGINX selects belongs to a rule that matches the request path, and every other matching rule is a
@@ -26,6 +26,15 @@ Theorem C02_matching_rule_is_served :
   forall u i r, nth_error rs i = Some r -> rule_matches r u = true ->
     exists l j, select (all_locs rs) u = Some l /\ l_owner l = Some j.
 Proof. exact select_complete. Qed.
+
+(* Hostnames: the server names a Route gets on a listener (model of findAcceptedHostnames, compared with the real function on
+   every pair of a pool and on random lists) serve exactly the request hosts that both the listener's hostname and one of
+   the Route's hostnames admit - for every listener hostname, every non-empty list of Route hostnames, every host. *)
+Theorem C02_server_names_are_the_hostname_intersection : forall lh rhs h,
+  rhs <> [] -> (forall r, In r rhs -> r <> ""%string) ->
+  (existsb (fun x => serves x h) (accepted_hostnames lh rhs) = true <->
+   serves lh h = true /\ existsb (fun r => serves r h) rhs = true).
+Proof. exact accepted_hostnames_exact. Qed.
 
 (* the winning gateway, when there is one, is a gateway of the class *)
 Theorem C02_winner_is_of_class :
